@@ -349,7 +349,7 @@ func genHandshake(run *hx.Run, add func(*Case)) {
 		for _, syn := range synVariants {
 			mk(h, scens[r.Intn(len(scens))], &hsMsg{Syn: syn, Ack: nil})
 			for _, bz := range bzzVariants() {
-				for k := 0; k < run.N(2, 6); k++ {
+				for k := 0; k < run.N(1, 6); k++ {
 					mk(h, scens[r.Intn(len(scens))], &hsMsg{Syn: syn, Ack: &hsAck{Addr: bz, NetID: netids[r.Pick([]int{0, 0, 0, 1, 2, 3})], Mode: modes[r.Pick([]int{0, 0, 1, 1, 2, 3, 4, 5})], Welcome: strings.Repeat("w", r.Pick([]int{0, 0, 5, 141}))}})
 				}
 			}
@@ -372,7 +372,7 @@ func genHandshake(run *hx.Run, add func(*Case)) {
 		if h == "handshake.in" {
 			valid, _ = proto.Marshal((&hsMsg{Syn: synVariants[1]}).pbSyn())
 		}
-		for _, chunks := range rawStreams(r, valid, run.N(40, 600)) {
+		for _, chunks := range rawStreams(r, valid, run.N(15, 600)) {
 			add(&Case{H: h, Kind: "raw", Scen: "p1", Raw: hexes(chunks...), Class: "raw-bytes"})
 		}
 	}
